@@ -44,8 +44,8 @@ def run(ctx):
                 ctx.notes.append("cluster schedule not realizable as compiled: %s" % rr.get("what"))
         # behaviours of the design model played by two or three REAL engines that exchange their real messages (the
         # other validators fabricated): Agreement over the real Finalize calls + CsContract per engine
-        arecs = cscommon.run_nodes(ctx, cscommon.cluster_abstract_cases(ctx, ctx.pick(6, 60), seed_off=11), cscommon.C01_KINDS,
-                                   shards=ctx.pick(6, 12), test="TestClusterAbstract")
+        arecs = cscommon.run_nodes(ctx, cscommon.cluster_abstract_cases(ctx, ctx.pick(4, 60), seed_off=11), cscommon.C01_KINDS,
+                                   shards=ctx.pick(4, 12), test="TestClusterAbstract")
         ctx.absorb(arecs)
     for rr in recs[:3]:
         if rr.get("sig"):
